@@ -25,7 +25,7 @@ RULE = ("for every validated field of RTFPage, RTFBody, RTFColumnHeader, RTFFoot
 ASSUMPTIONS = ["only the invalidity classes listed in the property statement are generated",
                "attribute shapes are those the field annotations admit (scalar, flat list, list of lists)"]
 DECIDING = ["constructor_calls", "rejections_observed", "valid_base_accepted"]
-FLOOR = {"quick": 4000, "thorough": 80000}
+FLOOR = {"quick": 16000, "thorough": 250000}
 
 TEXT_CLASSES = ["RTFTitle", "RTFSubline", "RTFPageHeader", "RTFPageFooter"]
 TABLE_CLASSES = ["RTFBody", "RTFColumnHeader", "RTFFootnote", "RTFSource"]
@@ -97,14 +97,20 @@ def container(rng, field, kind, shapes):
     bad = bad_value(rng, kind)
     if shape == "scalar":
         return bad, 1, {"shape": "scalar", "bad": bad}
+    big = rng.random() < 0.06       # sizes beyond any block / chunk / sample a validator might use
     if shape == "flat":
-        n = rng.randint(1, 5)
-        pos = rng.randrange(n)
+        n = rng.randint(1, 5) if not big else rng.choice([64, 65, 256, 257, 300])
+        pos = rng.randrange(n) if not big else rng.choice([n - 1, n - 2, rng.randrange(n), min(n - 1, 63), min(n - 1, 255)])
         v = [good_value(rng, field) for _ in range(n)]
         v[pos] = bad
         return v, n, {"shape": f"flat[{n}]", "pos": pos, "bad": bad}
     r, c = rng.randint(1, 4), rng.randint(1, 4)
+    if big:
+        r = rng.choice([64, 65, 128, 255, 256, 257, 300, 512, 513, 1024, 1025])
     pr, pc = rng.randrange(r), rng.randrange(c)
+    if big:
+        pr = rng.choice([r - 1, r - 2, rng.randrange(r), min(r - 1, 63), min(r - 1, 127), min(r - 1, 255),
+                         min(r - 1, 256), min(r - 1, 511), min(r - 1, 1023)])
     v = [[good_value(rng, field) for _ in range(c)] for _ in range(r)]
     v[pr][pc] = bad
     return v, r * c, {"shape": f"nested[{r}x{c}]", "pos": [pr, pc], "bad": bad}
@@ -315,7 +321,7 @@ def check(ctx, case, figpath, rng=None):
 
 
 def plan(tier, seed):
-    per = 1500 if tier == "quick" else 12000
+    per = 6000 if tier == "quick" else 40000
     return [{"n": per} for _ in range(16)]
 
 
